@@ -580,7 +580,7 @@ mutual
 end
 
 /-- what may follow a printed pattern: the end of the template, or the brace closing the context it stands in -/
-def StopC (rest : List Char) : Prop := rest = [] ∨ ∃ t, rest = '}' :: t
+def StopC (rest : List Char) : Prop := rest = [] ∨ ∃ t, rest = '}' :: t ∨ rest = '|' :: t
 
 def ctxStr (st : Style) (ctx : Option Pat) : List Char :=
   match ctx with | some p => '{' :: (printPat st p ++ ['}']) | none => []
@@ -605,9 +605,10 @@ theorem printPat_follow (st : Style) (q : Pat) (hq : NotRawHead q) (rest : List 
       (stop = '|' ∨ stop = '}' ∨ stop = '{' ∨ stop = '%') := by
   cases q with
   | nil =>
-    rcases hs with rfl | ⟨t, rfl⟩
+    rcases hs with rfl | ⟨t, rfl | rfl⟩
     · left; simp [printPat]
     · right; exact ⟨'}', t, by simp [printPat], by simp⟩
+    · right; exact ⟨'|', t, by simp [printPat], by simp⟩
   | cons e q' =>
     cases e with
     | raw s => exact absurd hq (by simp [NotRawHead])
@@ -647,7 +648,7 @@ theorem lexPat (st : Style) (hst : StyleOkL st) (p : Pat) (hp : PrPat p) (rest :
     rw [printElem_tag_eq, tokElem_tag_eq]
     simp only [ctxStr, ctxToks, List.cons_append, List.append_assoc, List.nil_append]
     rw [lexTagHead st hst cat name hcat hname _ hargs, lexAll_tok _ _ _ _ _ (h1 _),
-      lexPat st hst p' hp' ('}' :: (printPat st q ++ rest)) (Or.inr ⟨_, rfl⟩), lexAll_tok _ _ _ _ _ (h2 _),
+      lexPat st hst p' hp' ('}' :: (printPat st q ++ rest)) (Or.inr ⟨_, Or.inl rfl⟩), lexAll_tok _ _ _ _ _ (h2 _),
       lexPat st hst q hq rest hs]
     cases lexAll .D rest <;> simp
 
